@@ -62,9 +62,9 @@ def _weighted_geometric_mean(x, sample_weight=None, axis=None):
         Weighted geometric mean
     """
     check_consistent_length(x, sample_weight)
-    return np.exp(
-        np.sum(sample_weight * np.log(x), axis=axis) / np.sum(sample_weight, axis=axis)
-    )
+    # np.average aligns 1-d weights with `axis` (a bare product would broadcast
+    # weights of shape (n,) against the columns of an (n, k) array)
+    return np.exp(np.average(np.log(x), weights=sample_weight, axis=axis))
 
 
 def mean_asymmetric_error(
